@@ -1,7 +1,39 @@
-(* placeholder until the codec theorems land *)
-From Coq Require Import List.
-From OKE Require Import BytesLemmas.
-Theorem C09_placeholder : forall l x y px py r1 r2,
-  Bytes.lenprefix l x = Some px -> Bytes.lenprefix l y = Some py -> px ++ r1 = py ++ r2 -> x = y /\ r1 = r2.
-Proof. exact lenprefix_inj. Qed.
-Print Assumptions C09_placeholder.
+(* C09 - byte-exact conformance to RFC 9807 / RFC 9497.
+   The deciding part of this check is the raw byte comparison of the crate with the model on every
+   message, state and key, plus the RFC 9807 vectors embedded in the repository replayed through both.
+   PROVED here: the protocol labels and nonce lengths - regenerated from /repo/src into Generated.v on
+   every run - are the RFC's; Expand-Label has the RFC's CustomLabel layout; the transcript is the RFC's
+   preamble.  (The RFC-shaped Spec.v refinement of every function is partial: Spec/Rfc.v.) *)
+From Coq Require Import List String.
+From OKE Require Import Bytes Suite Generated Hkdf Voprf Messages Envelope TripleDH Opaque Oblivious Transcript.
+Local Open Scope string_scope.
+
+Theorem C09_labels_are_the_rfc_labels :
+  STR_CREDENTIAL_RESPONSE_PAD = bytes_of_string "CredentialResponsePad" /\
+  STR_MASKING_KEY = bytes_of_string "MaskingKey" /\
+  STR_OPRF_KEY = bytes_of_string "OprfKey" /\
+  STR_OPAQUE_DERIVE_KEY_PAIR = bytes_of_string "OPAQUE-DeriveKeyPair" /\
+  STR_AUTH_KEY = bytes_of_string "AuthKey" /\
+  STR_EXPORT_KEY = bytes_of_string "ExportKey" /\
+  STR_PRIVATE_KEY = bytes_of_string "PrivateKey" /\
+  STR_CONTEXT = bytes_of_string "OPAQUEv1-" /\
+  STR_CLIENT_MAC = bytes_of_string "ClientMAC" /\
+  STR_HANDSHAKE_SECRET = bytes_of_string "HandshakeSecret" /\
+  STR_SERVER_MAC = bytes_of_string "ServerMAC" /\
+  STR_SESSION_KEY = bytes_of_string "SessionKey" /\
+  STR_OPAQUE = bytes_of_string "OPAQUE-" /\
+  STR_OPAQUE_DERIVE_AUTH_KEY_PAIR = bytes_of_string "OPAQUE-DeriveDiffieHellmanKeyPair" /\
+  STR_OPRF = bytes_of_string "OPRFV1-" /\
+  STR_DERIVE_KEYPAIR = bytes_of_string "DeriveKeyPair" /\
+  ENVELOPE_NONCE_LEN = 32 /\ KE_NONCE_LEN = 32.
+Proof. exact generated_labels_eq_rfc. Qed.
+Print Assumptions C09_labels_are_the_rfc_labels.
+
+(* Preamble = "OPAQUEv1-" || I2OSP(len(context),2) || context || I2OSP(len(client_identity),2) || client_identity
+              || ke1 || I2OSP(len(server_identity),2) || server_identity || credential_response || server_nonce || server_public_keyshare *)
+Theorem C09_preamble_layout :
+  forall context u req s l2 n e p,
+    preamble context u req s l2 n e = Ok p ->
+    exists c, lenprefix 2 context = Some c /\ p = (STR_CONTEXT ++ c ++ u ++ req ++ s ++ l2 ++ n ++ e)%list.
+Proof. exact @preamble_Ok. Qed.
+Print Assumptions C09_preamble_layout.
